@@ -277,6 +277,8 @@ def run_requester(initial, more, channel, lenreq, in_on_subscribe=()):
 def correspond(ctx, corr, model_ok):
     corr.oracle_failures.extend(credit_behind_request_oracle())
     corr.count('credit granted while the fragmented request is partly written', 20)
+    corr.oracle_failures.extend(fragmented_initial_n_oracle())
+    corr.count('initial request-n of fragmented and unfragmented stream / channel requests', 12)
     corr.oracle_failures.extend(awaitable_credit_oracle())
     corr.count('AwaitableRSocket: limit_rate = credit in the request frame and every refill (stream and channel)', 24)
     from harness.props import c20
@@ -400,6 +402,8 @@ def search(ctx, budget_s):
 def replay(obj):
     if 'credit_case' in (obj.get('case') or {}):
         return bool(credit_behind_request_oracle())
+    if (obj.get('case') or {}).get('kind') == 'fragmented-initial-n':
+        return bool(fragmented_initial_n_oracle())
     if (obj.get('case') or {}).get('kind') == 'awaitable-credit':
         return bool(awaitable_credit_oracle())
     if 'rx_case' in (obj.get('case') or {}):
@@ -544,4 +548,47 @@ def awaitable_credit_oracle():
                 if bad:
                     out.append({'what': 'AwaitableRSocket.%s(limit_rate=%d): %s' % ('request_stream' if kind == 'rs' else 'request_channel', limit, bad),
                                 'kind': 'awaitable-credit', 'awaitable_case': case})
+    return out
+
+
+# ---------------------------------------------------------------------------------------------
+# the initial request-n of a request that goes out FRAGMENTED is the application's value, like that of any other request
+
+def fragmented_initial_n_oracle():
+    import asyncio
+    from datetime import timedelta
+    from rsocket.rsocket_client import RSocketClient
+    from rsocket.helpers import single_transport_provider
+    from rsocket.payload import Payload
+    from reactivestreams.subscriber import DefaultSubscriber
+    out = []
+    for kind in ('stream', 'channel'):
+        for n in (1, 2, 77):
+            for size in (20, 300):
+                loop = sim.new_loop()
+                sim.patch_clock(loop)
+                T = sim.make_transport_class()
+                t = T(lenreq=True)
+                box = {}
+                try:
+                    def mk():
+                        box['c'] = RSocketClient(single_transport_provider(t), fragment_size_bytes=64, keep_alive_period=timedelta(seconds=1000),
+                                                 max_lifetime_period=timedelta(seconds=5000))
+                        asyncio.create_task(box['c'].connect())
+                    loop.run(mk)
+                    loop.settle()
+                    c = box['c']
+                    p = Payload(b'q' * size)
+                    if kind == 'stream':
+                        loop.run(lambda: c.request_stream(p).initial_request_n(n).subscribe(DefaultSubscriber()))
+                    else:
+                        loop.run(lambda: c.request_channel(p).initial_request_n(n).subscribe(DefaultSubscriber()))
+                    loop.settle()
+                    frames = [sim.parse_sent(b) for b in t.sent]
+                    req = [f for f in frames if f['t'] in ('RequestStream', 'RequestChannel')]
+                    if len(req) != 1 or req[0]['n'] != n:
+                        out.append({'what': 'request-%s with initial_request_n(%d) and a %d-byte payload at fragment size 64: the request frame '
+                                            'carries n=%s' % (kind, n, size, [f['n'] for f in req]), 'kind': 'fragmented-initial-n'})
+                finally:
+                    loop.finish()
     return out
